@@ -106,7 +106,7 @@ func requests20(reduced bool) []req20 {
 	if reduced {
 		keys = [][]byte{nil, []byte("/r/a"), []byte("/r/\xff\xfe")}
 		vals = [][]byte{nil, []byte("v")}
-		revs = []int64{0, base + 1, -1}
+		revs = []int64{0, 1, base + 1, -1} // 1: a revision below an accepted compaction (pairs: compact high, then low)
 		limits = []int64{0, 1}
 	}
 	for _, k := range keys {
